@@ -13,6 +13,7 @@ import (
 	"os"
 	"runtime"
 	"sync"
+	"time"
 
 	"verif/harness/lib"
 )
@@ -34,17 +35,23 @@ func main() {
 	if err != nil {
 		res.Note("driver: %v", err)
 	} else {
+		t0 := time.Now()
 		runHashCorrespondence(f, res, drv, r.Fork(1))
+		t1 := time.Now()
 		runFixtures(f, res, drv)
 		drv.Close()
+		res.SetExtra("phase_seconds", map[string]float64{"hash_correspondence": t1.Sub(t0).Seconds(), "fixtures": time.Since(t1).Seconds()})
 	}
 
 	// phase 2: independent chains in parallel
+	tTamper := time.Now()
 	nChains := f.Scale(4, 12)
 	var tasks []chainTask
 	for c := 0; c < nChains; c++ {
 		for _, dstNew := range []bool{false, true} {
-			tasks = append(tasks, chainTask{Chain: c, SrcNew: c%2 == 1, DstNew: dstNew})
+			for slot := 0; slot < tamperSlots(f); slot++ {
+				tasks = append(tasks, chainTask{Chain: c, SrcNew: c%2 == 1, DstNew: dstNew, Slot: slot})
+			}
 		}
 	}
 	workers := runtime.NumCPU()
@@ -67,6 +74,7 @@ func main() {
 	}
 	close(ch)
 	wg.Wait()
+	res.SetExtra("tamper_phase_seconds", time.Since(tTamper).Seconds())
 	lib.Finish(f, res)
 }
 
